@@ -360,6 +360,10 @@ impl<T: HashAlgorithm> Nomt<T> {
 
         let _write_guard = self.access_lock.write();
 
+        if self.is_poisoned() {
+            anyhow::bail!("Store is poisoned due to prior error");
+        }
+
         let Some(rollback) = self.store.rollback() else {
             anyhow::bail!("rollback: not enabled");
         };
@@ -680,6 +684,10 @@ impl FinishedSession {
     pub fn commit<T: HashAlgorithm>(self, nomt: &Nomt<T>) -> Result<(), anyhow::Error> {
         let _write_guard = self.take_global_guard.then(|| nomt.access_lock.write());
 
+        if nomt.is_poisoned() {
+            anyhow::bail!("Store is poisoned due to prior error");
+        }
+
         {
             let mut shared = nomt.shared.lock();
             if shared.root != self.prev_root {
@@ -730,6 +738,10 @@ impl FinishedSession {
             .flatten();
         if write_guard.is_none() {
             return Ok(Some(self));
+        }
+
+        if nomt.is_poisoned() {
+            anyhow::bail!("Store is poisoned due to prior error");
         }
 
         // Check the changeset is still valid before anything is recorded for it: a rejected commit
@@ -815,6 +827,10 @@ impl Overlay {
 
         let _write_guard = nomt.access_lock.write();
 
+        if nomt.is_poisoned() {
+            anyhow::bail!("Store is poisoned due to prior error");
+        }
+
         {
             let mut shared = nomt.shared.lock();
             if shared.root != self.prev_root() {
@@ -877,6 +893,10 @@ impl Overlay {
         let write_guard = nomt.access_lock.try_write();
         if write_guard.is_none() {
             return Ok(Some(self));
+        }
+
+        if nomt.is_poisoned() {
+            anyhow::bail!("Store is poisoned due to prior error");
         }
 
         {
